@@ -633,15 +633,15 @@ static int MY_FAST_CALL LzmaDec_DecodeReal2(CLzmaDec *p, SizeT limit, const Byte
       UInt32 rem = p->prop.dicSize - p->processedPos;
       if (limit - p->dicPos > rem) {
           if (p->dicBufSize < p->prop.dicSize) {
-              p->dicBufSize = p->prop.dicSize;
-              if (p->dicBufSize > memlimit) {
+              if (p->prop.dicSize > memlimit) {
                   return SZ_ERROR_MEM;
               }
-              Byte *tmp = realloc(p->dic, p->dicBufSize);
+              Byte *tmp = realloc(p->dic, p->prop.dicSize);
               if (!tmp) {
                   return SZ_ERROR_MEM;
               }
               p->dic = tmp;
+              p->dicBufSize = p->prop.dicSize;
           }
         limit2 = p->dicPos + rem;
         }
@@ -1046,18 +1046,19 @@ SRes LzmaDec_DecodeToBuf(CLzmaDec *p, Byte *dest, SizeT *destLen, const Byte *sr
     if (p->dicPos == p->dicBufSize) {
       if (p->dicBufSize < p->prop.dicSize) {
         if (p->dicBufSize < memlimit) {
-          p->dicBufSize = p->dicBufSize << 2;
-          if (p->dicBufSize > memlimit) {
-            p->dicBufSize = memlimit;
+          SizeT newSize = p->dicBufSize << 2;
+          if (newSize > memlimit) {
+            newSize = memlimit;
           }
-          if (p->dicBufSize > p->prop.dicSize) {
-            p->dicBufSize = p->prop.dicSize;
+          if (newSize > p->prop.dicSize) {
+            newSize = p->prop.dicSize;
           }
-          Byte *tmp = realloc(p->dic, p->dicBufSize);
+          Byte *tmp = realloc(p->dic, newSize);
           if (!tmp) {
             return SZ_ERROR_MEM;
           }
           p->dic = tmp;
+          p->dicBufSize = newSize;
         } else {
           return SZ_ERROR_MEM;
         }
